@@ -367,13 +367,20 @@ fn accepted(r: &str) -> bool {
     matches!(r.split(' ').next().unwrap(), "created" | "updated" | "swapped" | "counter" | "patched")
 }
 
+/// usage the accounting property promises at a quiescent point: the footprints of the live records
+fn footprint(store: &FeoxStore) -> (usize, usize) {
+    let rs = feoxdb::verif::pure::record_struct_size();
+    let snap = store.verif_snapshot();
+    (snap.iter().map(|r| rs + r.key.len() + r.value_len).sum(), snap.len())
+}
+
 fn tail(store: &FeoxStore, key: &[u8], ret: Option<&str>) -> String {
     let clock = store.verif_clock_value(store.verif_clock_shard(key));
     let ts = match ret {
         Some(r) if accepted(r) => store.verif_snapshot().iter().find(|x| x.key == key).map(|x| format!(" ts={}", x.timestamp)).unwrap_or(" ts=?".into()),
         _ => String::new(),
     };
-    format!("{} clock={}", ts, clock)
+    format!("{} clock={} mem={} n={}", ts, clock, store.memory_usage(), store.len())
 }
 
 enum Step {
@@ -404,12 +411,13 @@ fn drive(out: &mut Out, ctl: &Arc<Ctl>, dir: &str, idx: u64, cfg: &Config, n: us
             std::thread::spawn(move || worker(id, c, s))
         })
         .collect();
-    out.emit(format!("conc new {} {} mem={} cache={}", n, WALL, cfg.mem as u8, cfg.cache as u8), "ok".into());
+    out.emit(format!("conc new {} {} mem={} cache={} rs={}", n, WALL, cfg.mem as u8, cfg.cache as u8, feoxdb::verif::pure::record_struct_size()), "ok".into());
     out.cases += 1;
     out.count(if cfg.mem { "config memory-only" } else if cfg.cache { "config persistent+cache" } else { "config persistent" });
     let mut busy = vec![false; n];
     let mut stuck = false;
     let mut script = String::new();
+    let mut acc_reported = false;
     let mut keys_seen: Vec<Vec<u8>> = vec![];
     while let Some(step) = next(&busy) {
         let (t, key, line, phase) = match step {
@@ -430,6 +438,16 @@ fn drive(out: &mut Out, ctl: &Arc<Ctl>, dir: &str, idx: u64, cfg: &Config, n: us
         };
         script.push_str(&line);
         script.push('\n');
+        if phase.is_some() {
+            let (want, n) = footprint(&store);
+            let (got, len) = (store.memory_usage(), store.len());
+            if (got != want || len != n) && !acc_reported {
+                acc_reported = true;
+                let keep = format!("{}/conc{}_acc.txt", dir, idx);
+                std::fs::write(&keep, &script).unwrap();
+                out.failures.push(format!("C13\tafter `{}` (all threads parked or idle) memory_usage() = {} but the live records add up to {}; len() = {} with {} live records\t{}", line, got, want, len, n, keep));
+            }
+        }
         match phase {
             None => {
                 let keep = format!("{}/conc{}_stuck.txt", dir, idx);
@@ -1015,7 +1033,7 @@ fn main() {
     feoxdb::verif::sched::set_controller(None);
     out.ops.flush().unwrap();
     out.imp.flush().unwrap();
-    std::fs::write(format!("{}/conc.failures", args.out), out.failures.join("\n")).unwrap();
+    std::fs::write(format!("{}/conc.failures", args.out), out.failures.iter().map(|l| format!("{}\n", l)).collect::<String>()).unwrap();
     let hist: Vec<String> = out.hist.iter().map(|(k, v)| format!("\"{}\": {}", k, v)).collect();
     std::fs::write(
         format!("{}/conc.meta.json", args.out),
